@@ -164,4 +164,33 @@ theorem renderResult_retVars {fs : Facts} {stype : Str} {act : SAct} {vals : Lis
     renderResult fs stype act (.retVars vals asVar) = renderResult fs stype act (.ret vals) := by
   simp [renderResult, asVarValid_of_valsOk h asVar]
 
+/-- for the integer, string and boolean families `VarAgreeWF` needs no codec hypothesis: a blank-free
+    name, declared texts that parse, non-empty bound texts, allowed values written as non-empty texts -/
+theorem varAgreeWF_modelled {fs : Facts} {vd : VarDef}
+    (hf : famOf vd.dtype = some .int ∨ famOf vd.dtype = some .str ∨ famOf vd.dtype = some .bool)
+    (hname : ∀ c ∈ vd.name, isWs c = false)
+    (hparse : ∀ s, (vd.min = some s ∨ vd.max = some s ∨ vd.default = some s ∨ s ∈ vd.allowed.getD []) →
+        (inp fs vd.dtype s).isSome = true)
+    (hbne : ∀ s, (vd.min = some s ∨ vd.max = some s) → s ≠ [])
+    (hane : ∀ a ∈ vd.allowed.getD [], ∀ v, inp fs vd.dtype a = some v → pyStr v ≠ []) :
+    VarAgreeWF fs vd := by
+  have hfs : (famOf vd.dtype).isSome = true := by rcases hf with h | h | h <;> simp [h]
+  have hf' : famOf vd.dtype = some .int ∨ famOf vd.dtype = some .bool ∨ famOf vd.dtype = some .str := by
+    rcases hf with h | h | h
+    · exact Or.inl h
+    · exact Or.inr (Or.inr h)
+    · exact Or.inr (Or.inl h)
+  have opt : ∀ o : Option Str, (∀ s, o = some s → (inp fs vd.dtype s).isSome = true) → OptWF fs vd.dtype o := by
+    intro o ho s hs
+    cases hv : inp fs vd.dtype s with
+    | none => have := ho s hs; simp [hv] at this
+    | some v => exact ⟨v, rfl, rtok_modelled hf hv⟩
+  refine ⟨⟨hname, hfs, opt _ (fun s h => hparse s (Or.inl h)), opt _ (fun s h => hparse s (Or.inr (Or.inl h))),
+    opt _ (fun s h => hparse s (Or.inr (Or.inr (Or.inl h)))), ?_⟩,
+    boundNe_modelled hf' (fun s h => hbne s (Or.inl h)), boundNe_modelled hf' (fun s h => hbne s (Or.inr h))⟩
+  intro a ha
+  cases hv : inp fs vd.dtype a with
+  | none => have := hparse a (Or.inr (Or.inr (Or.inr ha))); simp [hv] at this
+  | some v => exact ⟨v, rfl, rtok_modelled hf hv, hane a ha v hv⟩
+
 end Upnp.C14
